@@ -561,6 +561,69 @@ def check_text(text, acc, default='en'):
             acc.violation('first-error-line-text', case, 'the grammar is first stuck at line %d, the parser first reports line %d' % (stuck, min(e[0] for e in grammar_errors)))
 
 
+def _first(kws):
+    return next(k for k in kws if k.strip() != '*')
+
+
+@worker
+def job_dialect_keywords(names):
+    """Every keyword of every role of the dialect, one at a time in a document that uses every construct: the line kinds handed to the
+    builder must be the grammar's reading of the reference lexer's kinds, and the nesting must put each construct where the grammar does."""
+    from .. import impl as I
+    from .. import docmodel as M
+    from .. import ref as R
+    acc = Acc()
+    text = None
+    for d in names:
+        D = R.DIALECTS[d]
+        base = {r: _first(D[r]) for r in ('feature', 'background', 'rule', 'scenario', 'scenarioOutline', 'examples', 'given', 'when', 'then')}
+        for role in base:
+            for kw in D[role]:
+                k = dict(base)
+                k[role] = kw
+                for tagged in (False, True):
+                    tg = '  @t\n' if tagged else ''
+                    text = ('# language: %s\n%s: f\n  %s:\n    %sx\n%s  %s: r\n%s    %s: s\n      %sy\n%s    %s: o\n      %sz\n%s      %s:\n        | a |\n'
+                            % (d, k['feature'], k['background'], k['given'], tg, k['rule'], tg, k['scenario'], k['when'], tg, k['scenarioOutline'], k['then'], tg, k['examples']))
+                    case = {'kind': 'dialect-keyword', 'text': text, 'dialect': d, 'role': role, 'keyword': kw}
+                    acc.n += 1
+                    acc.validated += 1
+                    ok, stuck, read = M.grammar_reading(text)
+                    if not ok:
+                        raise core.InternalError('sweep design: the grammar does not accept %r (stuck at %s)' % (text, stuck))
+                    want = [h for h in read] + ['EOF']
+                    t = I.tokens(text)
+                    if t[0] != 'ok':
+                        acc.violation('language-text', case, 'a sentence of the grammar written with the %s keyword %r of dialect %s is rejected: %r' % (role, kw, d, t[1][:1]))
+                        continue
+                    acc.nontrivial += 1
+                    got = [x.matched_type for x in t[2]]
+                    if got != want:
+                        i = next((i for i, (x, y) in enumerate(zip(got, want)) if x != y), min(len(got), len(want)))
+                        acc.violation('token-kinds-text', case, 'line %d reaches the builder as %s, the grammar reads it as %s' % (i + 1, got[i:i + 1], want[i:i + 1]))
+                        continue
+                    a = I.parse(text)
+                    if a[0] != 'ok':
+                        acc.violation('language-text', case, 'accepted with the token formatter but rejected with the AST builder: %r' % (a[1][:1],))
+                        continue
+                    f = a[1].get('feature') or {}
+                    ch = f.get('children', [])
+                    shape = [list(c)[0] for c in ch]
+                    inner = [list(c)[0] + ':' + str(len(list(c.values())[0].get('examples', []))) + ':' + str(len(list(c.values())[0].get('tags', [])))
+                             for c in (ch[1]['rule']['children'] if len(ch) > 1 and 'rule' in ch[1] else [])]
+                    n = 1 if tagged else 0
+                    exp_inner = ['scenario:0:%d' % n, 'scenario:1:%d' % n]
+                    rtags = len(ch[1]['rule'].get('tags', [])) if len(ch) > 1 and 'rule' in ch[1] else None
+                    extags = [len(e.get('tags', [])) for c in (ch[1]['rule']['children'][1:] if len(inner) > 1 else []) for e in c['scenario'].get('examples', [])]
+                    acc.states.add((role, tuple(shape), tuple(inner)))
+                    acc.trans.add((d, role))
+                    if shape != ['background', 'rule'] or inner != exp_inner or rtags != n or extags != [n]:
+                        acc.violation('nesting-text', case, 'nesting is not Feature(Background, Rule(Scenario, Scenario Outline(Examples))) with each tag line on what follows it',
+                                      observed=[shape, inner, rtags, extags], expected=[['background', 'rule'], exp_inner, n, [n]])
+    acc.sample({'text': text})
+    return acc
+
+
 def run(ctx):
     setup()
     acc = ctx.acc
@@ -621,6 +684,9 @@ def run(ctx):
     from .. import docspace as DS
     k_full, k_core = ctx.pick((2, 2), (3, 3))
     DS.run_levels(ctx, __name__, k_full, k_core)
+    from .. import ref as R
+    names = sorted(R.DIALECTS)
+    ctx.level('every keyword of every dialect in a full document', [job_dialect_keywords.job(names[i:i + 3]) for i in range(0, len(names), 3)])
     L = 5
     Lmax = ctx.pick(5, 7)
     # iterate the bound: all words <= L first (sharded by 2-prefix), then exactly the next length
